@@ -51,6 +51,11 @@ theorem rejected_only_as_documented (allowLong : Bool) (inp : List (Str × Str))
     (h : preProcessIds allowLong inp = .error e) : e = .runtime ∨ e = .noName :=
   preProcessIds_err h
 
+/-- with `allow_long_headers` the only rejection left is a record without identifier -/
+theorem allow_long_rejects_only_unnamed (inp : List (Str × Str)) (e : Err)
+    (h : preProcessIds true inp = .error e) : e = .noName :=
+  preProcessIds_err_long h
+
 /-- the executable specification evaluated by the driver on the implementation's output holds of
     the model's output (same definition, `ASV.IdSpec.recordsOk`) -/
 theorem sanitised_meets_spec (allowLong : Bool) (inp : List (Str × Str)) (recs : List Rec)
@@ -97,6 +102,14 @@ theorem gene_names_safe (s : Str) (ops : List GOp) :
     ((∀ op ∈ ops, chkSafe op) → ∀ x ∈ (runOps {} ops).cdss, ∀ bad ∈ illegalGeneChars, bad ∉ x.1) :=
   ⟨fun bad hb hm => sanitise_safe s bad hm hb, sanitise_length s,
    fun hc x hx bad hb hm => runOps_safe ops hc (by simp) x hx bad hm hb⟩
+
+/-- the regenerated illegal-character tables still contain every character they contained when
+    the property was written (path separator, blank, shell/GenBank metacharacters; for gene ids
+    also tab / newline / carriage return): shrinking a table breaks this obligation -/
+theorem illegal_sets_cover_baseline :
+    (['!', '"', '#', '$', '%', '&', '(', ')', '*', '+', ',', ':', ';', '=', '>', '?', '@', '[', ']', '^', '`',
+      '\'', '{', '|', '}', '/', ' '].all fun c => illegalRecordChars.contains c && illegalGeneChars.contains c) = true ∧
+    (['\t', '\n', '\r'].all fun c => illegalGeneChars.contains c) = true := by decide
 
 /-! ### non-vacuity: the hypotheses are satisfiable on the inputs that used to break the property -/
 
